@@ -28,9 +28,15 @@ func CaptureResponse(w http.ResponseWriter) *ResponseCapture {
 	return &ResponseCapture{ResponseWriter: w}
 }
 
-// WriteHeader records the value of the status code before writing it.
+// WriteHeader records the value of the status code before writing it. Only
+// the first final status code is sent to the client: net/http ignores
+// WriteHeader once a final status has been written, so StatusCode keeps the
+// code that was sent (informational 1xx codes may still be followed by the
+// final one).
 func (w *ResponseCapture) WriteHeader(code int) {
-	w.StatusCode = code
+	if w.StatusCode < 200 && w.StatusCode != http.StatusSwitchingProtocols {
+		w.StatusCode = code
+	}
 	w.ResponseWriter.WriteHeader(code)
 }
 
